@@ -114,6 +114,23 @@ Theorem C06_read_config_keys_order_indep : forall passes passes',
 Proof. exact read_config_keys_order_indep. Qed.
 Print Assumptions C06_read_config_keys_order_indep.
 
+(* annotation names are opaque strings compared exactly (the modelled fact; Kubernetes
+   annotation names are case sensitive): two names that yield the same key in one pass are the
+   same name, and a name that is not exactly prefix/key never contributes to key -- no letter
+   case folding, no "_" for "-", no trimming.  A reader that identified two distinct names of
+   one object would let the visiting order of the map pick between their values; the
+   correspondence (CKeys) fails on such a reader. *)
+Theorem C06_read_config_keys_names_exact : forall prefix n1 n2 k,
+  trim_prefix prefix n1 = Some k -> trim_prefix prefix n2 = Some k -> n1 = n2.
+Proof. exact read_config_keys_names_exact. Qed.
+Print Assumptions C06_read_config_keys_names_exact.
+
+Theorem C06_read_config_keys_other_names : forall (passes : list (string * annots)) (k : string),
+  (forall p e, In p passes -> In e (snd p) -> fst e <> (fst p ++ "/" ++ k)%string) ->
+  assoc k (read_config_keys passes) = None.
+Proof. exact read_config_keys_other_names. Qed.
+Print Assumptions C06_read_config_keys_other_names.
+
 (* (they would be with the two loops the other way round: the model can tell) *)
 Theorem C06_read_config_keys_swapped_order_dependent :
   exists prefixes visit visit' k,
